@@ -1,31 +1,8 @@
+import Blue.Model.FsyncCore
 /-! `FsyncCoalescingCore` (sst/src/log.rs): a caller that is answered `true` has its bytes on disk.
-    Offsets are the log's cumulative byte counts; `written` is the largest offset whose `write` has
-    returned, `durable` the largest offset covered by an `fdatasync` that has returned. -/
+    The model (`St`, `step`; `RSt`, `rstep` with the system call split into issue and return, where
+    the call can FAIL) is `Blue/Model/FsyncCore.lean` (shared with the correspondence driver). -/
 namespace Blue.FsyncCore
-
-structure St where
-  synced : Nat
-  written : Nat
-  durable : Nat
-
-inductive Ev where
-  /-- a write core batch finished: the log now extends to `w` -/
-  | wrote (w : Nat)
-  /-- the fsync core is given a batch of offsets (each from a caller whose write has returned) and
-      the `fdatasync`, if it is issued, succeeds or fails -/
-  | work (inputs : List Nat) (ok : Bool)
-
-def acc (inputs : List Nat) : Nat := inputs.foldl max 0
-
-/-- the state after the event, and the answer every member of the batch receives -/
-def step (s : St) : Ev → St × Option Bool
-  | .wrote w => ({ s with written := max s.written w }, none)
-  | .work inputs ok =>
-    if (∀ i ∈ inputs, i ≤ s.written) then
-      if s.synced ≥ acc inputs then (s, some true)
-      else if ok then ({ s with synced := acc inputs, durable := s.written }, some true)
-      else (s, some false)
-    else (s, none)
 
 def Inv (s : St) : Prop := s.synced ≤ s.durable ∧ s.durable ≤ s.written
 
@@ -128,7 +105,209 @@ theorem batch_returns_seen_loses_durability :
       ∧ (∀ i ∈ inputs, i ≤ (step s (.work inputs true)).1.durable) := by
   refine ⟨⟨5, 10, 5⟩, [10, 0], ⟨by decide, by decide⟩, by decide, by decide, ⟨10, by decide, by decide⟩, by decide, by decide⟩
 
+/-! ### runs in which the system call can fail
+
+`rstep` splits `work` into the issue of the `fdatasync` (`enter`, unless the batch takes the
+`synced >= acc` shortcut) and its return (`ret ok`).  Writes of other callers land in between; a
+call that fails answers every member `false` and moves neither `synced` nor `durable`.  `durable`
+is a ghost the core never reads: it is raised only by `ret true`, to the value `written` had when
+that call was ISSUED — what the harness's probe measures on the real file. -/
+
+def RInv (s : RSt) : Prop :=
+  s.synced ≤ s.durable ∧ s.durable ≤ s.written ∧
+  ∀ f, s.flight = some f → (∀ i ∈ f.inputs, i ≤ f.acc) ∧ f.acc ≤ f.len ∧ f.len ≤ s.written
+
+theorem rinv_init : RInv init := ⟨Nat.le_refl _, Nat.le_refl _, fun _ h => by cases h⟩
+
+theorem rinv_step {s : RSt} (h : RInv s) (ev : REv) : RInv (rstep s ev).1 := by
+  obtain ⟨h1, h2, h3⟩ := h
+  cases ev with
+  | wrote w =>
+    refine ⟨h1, by simp only [rstep]; omega, fun f hf => ?_⟩
+    obtain ⟨a, b, c⟩ := h3 f hf
+    exact ⟨a, b, by simp only [rstep]; omega⟩
+  | enter inputs =>
+    simp only [rstep]
+    split
+    · exact ⟨h1, h2, h3⟩
+    · split
+      · rename_i hin
+        split
+        · exact ⟨h1, h2, h3⟩
+        · refine ⟨h1, h2, fun f hf => ?_⟩
+          cases hf
+          exact ⟨fun i hi => le_acc inputs 0 i (Or.inl hi), acc_le inputs 0 s.written (Nat.zero_le _) hin, Nat.le_refl _⟩
+      · exact ⟨h1, h2, h3⟩
+  | ret ok =>
+    simp only [rstep]
+    split
+    · exact ⟨h1, h2, h3⟩
+    · rename_i f hf
+      obtain ⟨_, b, c⟩ := h3 f hf
+      split
+      · refine ⟨?_, ?_, fun _ hf' => by cases hf'⟩
+        · show f.acc ≤ max s.durable f.len
+          omega
+        · show max s.durable f.len ≤ s.written
+          omega
+      · exact ⟨h1, h2, fun _ hf' => by cases hf'⟩
+
+theorem rinv_foldl (evs : List REv) : ∀ {s : RSt}, RInv s → RInv (evs.foldl (fun s e => (rstep s e).1) s) := by
+  induction evs with
+  | nil => exact fun h => h
+  | cons e es ih => exact fun h => ih (rinv_step h e)
+
+/-- the invariant holds after every run from the initial state, whatever calls failed -/
+theorem rinv_run (evs : List REv) : RInv (run evs) := rinv_foldl evs rinv_init
+
+/-- one event: whoever is answered `true` is covered by a successfully returned `fdatasync` -/
+theorem rstep_true_is_durable {s : RSt} (h : RInv s) (ev : REv) (a : Ans)
+    (hans : (rstep s ev).2 = some a) (hok : a.ok = true) : ∀ i ∈ a.inputs, i ≤ (rstep s ev).1.durable := by
+  obtain ⟨h1, _, h3⟩ := h
+  cases ev with
+  | wrote w => simp [rstep] at hans
+  | enter inputs =>
+    simp only [rstep] at hans ⊢
+    split at hans
+    · cases hans
+    · rename_i hfl
+      try simp only [hfl]
+      split at hans
+      · rename_i hin
+        rw [if_pos hin]
+        split at hans
+        · rename_i hs
+          rw [if_pos hs]
+          cases hans
+          intro i hi
+          have := le_acc inputs 0 i (Or.inl hi)
+          unfold acc at hs
+          show i ≤ s.durable
+          omega
+        · cases hans
+      · cases hans
+  | ret ok =>
+    simp only [rstep] at hans ⊢
+    split at hans
+    · cases hans
+    · rename_i f hf
+      try simp only [hf]
+      obtain ⟨a1, a2, _⟩ := h3 f hf
+      split at hans
+      · rename_i hk
+        rw [if_pos hk]
+        cases hans
+        intro i hi
+        have := a1 i hi
+        show i ≤ max s.durable f.len
+        omega
+      · cases hans
+        cases hok
+
+/-- **C12 / C02, with failing system calls** in every run of the core — any interleaving of
+    writes, batches entering `work`, and `fdatasync`s returning success OR FAILURE — a caller
+    that is answered `true` has its offset covered by an `fdatasync` that was issued after its
+    bytes were written and has returned successfully -/
+theorem run_answered_true_is_durable (evs : List REv) (ev : REv) (a : Ans)
+    (hans : (rstep (run evs) ev).2 = some a) (hok : a.ok = true) :
+    ∀ i ∈ a.inputs, i ≤ (rstep (run evs) ev).1.durable :=
+  rstep_true_is_durable (rinv_run evs) ev a hans hok
+
+/-- what is durable stays durable -/
+theorem durable_mono (s : RSt) (ev : REv) : s.durable ≤ (rstep s ev).1.durable := by
+  cases ev with
+  | wrote w => exact Nat.le_refl _
+  | enter inputs =>
+    simp only [rstep]
+    split
+    · exact Nat.le_refl _
+    · split
+      · split <;> exact Nat.le_refl _
+      · exact Nat.le_refl _
+  | ret ok =>
+    simp only [rstep]
+    split
+    · exact Nat.le_refl _
+    · split
+      · show s.durable ≤ max s.durable _
+        omega
+      · exact Nat.le_refl _
+
+/-- a failed call: every member of its batch is answered `false`, and neither `synced` nor
+    `durable` (nor `written`) moves — the next batch is treated as if the call had never been made -/
+theorem failed_call_answers_false_moves_nothing (s : RSt) (f : Flight) (h : s.flight = some f) :
+    rstep s (.ret false) = ({ s with flight := none }, some ⟨f.inputs, false⟩) := by
+  simp [rstep, h]
+
+/-- an error is never invented: `false` is answered only by the return of a failed call, to the
+    members of the batch that issued it -/
+theorem false_only_from_failed_call {s : RSt} {ev : REv} {a : Ans}
+    (hans : (rstep s ev).2 = some a) (hf : a.ok = false) :
+    ev = .ret false ∧ ∃ f, s.flight = some f ∧ a.inputs = f.inputs := by
+  cases ev with
+  | wrote w => simp [rstep] at hans
+  | enter inputs =>
+    simp only [rstep] at hans
+    split at hans
+    · cases hans
+    · split at hans
+      · split at hans
+        · cases hans; cases hf
+        · cases hans
+      · cases hans
+  | ret ok =>
+    simp only [rstep] at hans
+    split at hans
+    · cases hans
+    · rename_i f hfl
+      split at hans
+      · cases hans; cases hf
+      · rename_i hk
+        cases hans
+        refine ⟨?_, f, hfl, rfl⟩
+        cases ok
+        · rfl
+        · exact absurd rfl hk
+
+/-- after a failed call a batch whose offsets are not yet covered issues its own call (it cannot
+    take the shortcut on the strength of the failed one) -/
+theorem after_failed_call_next_batch_syncs {s : RSt} (h : RInv s) (f : Flight) (hf : s.flight = some f)
+    (inputs : List Nat) (hin : ∀ i ∈ inputs, i ≤ s.written) (hnew : s.durable < acc inputs) :
+    (rstep (rstep s (.ret false)).1 (.enter inputs)).2 = none
+      ∧ (rstep (rstep s (.ret false)).1 (.enter inputs)).1.flight = some ⟨acc inputs, s.written, inputs⟩ := by
+  obtain ⟨h1, _, _⟩ := h
+  rw [failed_call_answers_false_moves_nothing s f hf]
+  have hn : ¬ (s.synced ≥ acc inputs) := by omega
+  simp only [rstep]
+  rw [if_pos hin, if_neg hn]
+  exact ⟨rfl, rfl⟩
+
+/-! ### `synced` must not move before the call has succeeded
+
+Seeded change C02r3-3: `self.synced = acc` is executed BEFORE the `fdatasync`, whatever it returns
+(`rstepEarly`).  The members of the failed batch are still told `false`; but an appender that
+shared the coalesced write with them (same offset) and reaches the fsync queue one round later
+finds `synced >= acc`, no call is made, and it is answered `true` with nothing durable. -/
+
+/-- **C12 / C02** closed counterexample for the as-mutated core, and the real core on the same run:
+    10 bytes written by one coalesced write for two appenders; the first leads a batch alone and
+    its `fdatasync` FAILS; the second enters next.  As mutated: answered `true`, `durable = 0`.
+    The real core: no answer yet, a second `fdatasync` is in flight, and when it returns
+    successfully the answer is `true` with `durable = 10` -/
+theorem synced_before_failed_call_loses_durability :
+    ∃ (evs : List REv) (inputs : List Nat),
+      (rstepEarly (runEarly evs) (.enter inputs)).2 = some ⟨inputs, true⟩
+      ∧ (∃ i ∈ inputs, (rstepEarly (runEarly evs) (.enter inputs)).1.durable < i)
+      ∧ (rstep (run evs) (.enter inputs)).2 = none
+      ∧ (rstep (rstep (run evs) (.enter inputs)).1 (.ret true)).2 = some ⟨inputs, true⟩
+      ∧ (∀ i ∈ inputs, i ≤ (rstep (rstep (run evs) (.enter inputs)).1 (.ret true)).1.durable) := by
+  refine ⟨[.wrote 10, .enter [10], .ret false], [10], by decide, ⟨10, by decide, by decide⟩, by decide, by decide, by decide⟩
+
 end Blue.FsyncCore
 
 #print axioms Blue.FsyncCore.answered_true_is_durable
 #print axioms Blue.FsyncCore.batch_returns_seen_loses_durability
+#print axioms Blue.FsyncCore.run_answered_true_is_durable
+#print axioms Blue.FsyncCore.false_only_from_failed_call
+#print axioms Blue.FsyncCore.after_failed_call_next_batch_syncs
+#print axioms Blue.FsyncCore.synced_before_failed_call_loses_durability
